@@ -1,37 +1,21 @@
+(* fit_shifts of tweakwcs.linearfit: weighted mean displacement is the least-squares optimum *)
 From Coq Require Import QArith List Lia Lra Lqa Psatz.
+Require Import LSQ.
 Import ListNotations.
 Open Scope Q_scope.
 
-(* a point pair with weight *)
-Record pt := { px : Q; py : Q; pu : Q; pv : Q; pw : Q }.
-
-Definition sq (x:Q) := x*x.
-Lemma sq_nonneg x : 0 <= sq x. Proof. unfold sq. nra. Qed.
-Definition sumQ (f : pt -> Q) (l : list pt) : Q := fold_right (fun p a => f p + a) 0 l.
-
-Lemma sumQ_add f g l : sumQ (fun p => f p + g p) l == sumQ f l + sumQ g l.
-Proof. induction l as [|p l IH]; simpl; [ring| rewrite IH; ring]. Qed.
-Lemma sumQ_scal c f l : sumQ (fun p => c * f p) l == c * sumQ f l.
-Proof. induction l as [|p l IH]; simpl; [ring| rewrite IH; ring]. Qed.
-Lemma sumQ_ext f g l : (forall p, In p l -> f p == g p) -> sumQ f l == sumQ g l.
-Proof. induction l as [|p l IH]; simpl; intros H; [reflexivity|].
-  rewrite (H p) by auto. rewrite IH; [reflexivity| intros; apply H; auto]. Qed.
-Lemma sumQ_nonneg f l : (forall p, In p l -> 0 <= f p) -> 0 <= sumQ f l.
-Proof. induction l as [|p l IH]; simpl; intros H; [lra|].
-  assert (0 <= f p) by (apply H; auto). assert (0 <= sumQ f l) by (apply IH; intros; apply H; auto). lra. Qed.
-
-Definition fit_shift (l : list pt) : Q * Q :=
+Definition fit_shift (l : list pr) : Q * Q :=
   let sw := sumQ pw l in
   (sumQ (fun p => pw p * (px p - pu p)) l / sw, sumQ (fun p => pw p * (py p - pv p)) l / sw).
 
-Definition ssr (s : Q * Q) (l : list pt) : Q :=
+Definition ssr_shift (s : Q * Q) (l : list pr) : Q :=
   sumQ (fun p => pw p * ((sq (px p - pu p - fst s)) + (sq (py p - pv p - snd s)))) l.
 
 Theorem fit_shift_optimal l s' :
   (forall p, In p l -> 0 <= pw p) -> 0 < sumQ pw l ->
-  ssr (fit_shift l) l <= ssr s' l.
+  ssr_shift (fit_shift l) l <= ssr_shift s' l.
 Proof.
-  intros Hw Hsw. unfold ssr, fit_shift. cbn [fst snd].
+  intros Hw Hsw. unfold ssr_shift, fit_shift. cbn [fst snd].
   set (sw := sumQ pw l) in *.
   set (mx := sumQ (fun p => pw p * (px p - pu p)) l / sw).
   set (my := sumQ (fun p => pw p * (py p - pv p)) l / sw).
@@ -50,7 +34,3 @@ Proof.
 Qed.
 Print Assumptions fit_shift_optimal.
 
-(* execution speed *)
-Fixpoint mk (n : nat) (k : Z) : list pt :=
-  match n with O => [] | S n' => {| px := (k*7+3) # 16; py := (k*k+1) # 32; pu := (k*5) # 8; pv := (1-k) # 4; pw := 1 + (k # 3) |} :: mk n' (k+1)%Z end.
-Time Eval vm_compute in (let r := fit_shift (mk 40 1%Z) in (Qred (fst r), Qred (snd r))).
